@@ -232,7 +232,104 @@ fn future_values(ctx: &mut Ctx) {
     }
 }
 
+/// LEB128 of `v` padded with `pad` continuation groups of zero (unsigned) — any total length
+fn leb_padded(mut v: u128, pad: usize) -> Vec<u8> {
+    let mut o = vec![];
+    loop {
+        let b = (v & 0x7f) as u8;
+        v >>= 7;
+        if v == 0 && pad == 0 {
+            o.push(b);
+            return o;
+        }
+        o.push(b | 0x80);
+        if v == 0 {
+            break;
+        }
+    }
+    for _ in 1..pad {
+        o.push(0x80);
+    }
+    o.push(0x00);
+    o
+}
+
+/// signed LEB128 of a negative number padded with `pad` groups of ones
+fn sleb_neg_padded(pad: usize, low: u8) -> Vec<u8> {
+    let mut o = vec![0x80 | (low & 0x7f)];
+    for _ in 1..pad {
+        o.push(0xff);
+    }
+    o.push(0x7f);
+    o
+}
+
+/// native decoding of hostile inputs at every corpus type: the call has to return (value or error), with and
+/// without quotas — `nat.total` (the model's answer is the claim itself: "returned")
+fn native_totality(ctx: &mut Ctx) {
+    let names = crate::c01::corpus_names();
+    // (1) numbers in padded (S)LEB128 of every length around the 64- and 128-bit shifts, as `nat` and as `int`,
+    //     alone, in an option and in a vector, offered to every corpus type
+    let pads = [0usize, 1, 2, 8, 9, 10, 11, 17, 18, 19, 20, 21, 22, 30, 40, 64];
+    let vals: [u128; 7] = [0, 1, 127, u64::MAX as u128, (u64::MAX as u128) + 1, u128::MAX >> 1, u128::MAX];
+    let mut msgs: Vec<Vec<u8>> = vec![];
+    for &p in &pads {
+        for &v in &vals {
+            let body = leb_padded(v, p);
+            for code in [0x7du8, 0x7c] {
+                let mut m = b"DIDL\x00\x01".to_vec();
+                m.push(code);
+                m.extend(&body);
+                msgs.push(m);
+                // opt <num> with a value
+                let mut m = b"DIDL\x01\x6e".to_vec();
+                m.push(code);
+                m.extend([0x01, 0x00, 0x01]);
+                m.extend(&body);
+                msgs.push(m);
+                // vec <num> with two elements
+                let mut m = b"DIDL\x01\x6d".to_vec();
+                m.push(code);
+                m.extend([0x01, 0x00, 0x02]);
+                m.extend(&body);
+                m.extend(&body);
+                msgs.push(m);
+            }
+        }
+        let body = sleb_neg_padded(p.max(1), 0x7f);
+        let mut m = b"DIDL\x00\x01\x7c".to_vec();
+        m.extend(&body);
+        msgs.push(m);
+    }
+    let numeric: Vec<&String> = names
+        .iter()
+        .filter(|n| ["u128", "i128", "Nat", "Int"].iter().any(|k| n.contains(k)))
+        .collect();
+    for m in &msgs {
+        for n in &numeric {
+            ctx.emit(&format!("nat.total\t{}\t{}", n, sexp::hx(m)), true);
+        }
+    }
+    // (2) every corpus type: its own encodings, mutated
+    let rounds = if ctx.thorough { 60 } else { 3 };
+    for _ in 0..rounds {
+        for (i, n) in names.iter().enumerate() {
+            let Some(b0) = crate::c01::corpus_encode(i, &mut ctx.rng) else { continue };
+            let mut b = b0;
+            for _ in 0..ctx.rng.range(1, 4) {
+                b = c02::mutate(ctx, &b);
+            }
+            if crate::bomb::announces_zero_sized_flood(&b) {
+                ctx.out.stat("skipped:message-announces-zero-sized-flood");
+                continue;
+            }
+            ctx.emit(&format!("nat.total\t{}\t{}", n, sexp::hx(&b)), true);
+        }
+    }
+}
+
 pub fn run(ctx: &mut Ctx) {
+    native_totality(ctx);
     length_bombs(ctx);
     future_values(ctx);
     deep(ctx);
